@@ -51,12 +51,33 @@ def run_ring(ctx, name, cover_all):
     covered = len({ei for w in walks for ei in w})
     ctx.notes.setdefault("replays", []).append({"spec": "Ring", "config": name, "states": len(states), "edges": len(edges), "edges_replayed": covered,
                                                 "behaviours": len(behs), "steps": stats[0]["steps"]})
+    n = 3000 if ctx.tier == "quick" else 100000
+    rc, o2 = ctx.go_test("./ringx/", run="TestExplore", env={"VERIF_CFG": cfgp, "VERIF_N": n}, tags="", timeout=1500)
+    res2 = ctx.go_results(o2)
+    st2 = [x for x in res2 if x.get("kind") == "stat"]
+    if not st2:
+        raise core.Infra("ring exploration did not finish:\n" + o2[-3000:])
+    ctx.notes.setdefault("explorations", []).append(dict(st2[0], config=name))
+    semantic = 0
+    for v in res2:
+        if v.get("kind") == "viol":
+            if v["key"] == "infra":
+                raise core.Infra("ring exploration: " + v["what"])
+            semantic += 1
+            ctx.violation("ring " + v["key"], "[%s] %s" % (name, v["what"]), {"config": name, "schedule": v.get("schedule")})
+    shape = []
     for v in res:
         if v.get("kind") == "viol":
             if v["key"] == "infra":
                 raise core.Infra("ring replay: " + v["what"])
             b = behs[v["case"]]
+            if v["key"].startswith("shape "):
+                shape.append(v)
+                if not semantic:
+                    continue
             ctx.violation("ring " + v["key"], "[%s] %s" % (name, v["what"]), {"config": name, "behaviour": {"init": b["init"], "steps": b["steps"][:v["step"] + 1]}})
+    if shape and not semantic:
+        raise core.Infra("%s: ring.go no longer takes the specification's steps (%s); no invariant of Ring.tla was broken in %d random schedules" % (name, shape[0]["what"], st2[0]["schedules"]))
     return len(behs), stats[0]["steps"], behs
 
 
@@ -85,12 +106,38 @@ def run_workloop(ctx, cfgf, sig, maxsig):
         raise core.Infra("workloop replayer did not finish:\n" + o[-3000:])
     ctx.notes.setdefault("replays", []).append({"spec": "WorkLoop", "config": cfgf, "states": len(states), "edges": len(edges),
                                                 "edges_replayed": len({ei for w in walks for ei in w}), "behaviours": len(behs), "steps": stats[0]["steps"]})
+    # shape-independent exploration of the same system: WorkLoop.tla's invariants on what is observable
+    n = 20000 if ctx.tier == "quick" else 400000
+    rc, o2 = ctx.go_test("./wlx/", run="TestExplore", env={"VERIF_CFG": cfgp, "VERIF_N": n}, tags="", timeout=1500)
+    res2 = ctx.go_results(o2)
+    st2 = [x for x in res2 if x.get("kind") == "stat"]
+    if not st2:
+        raise core.Infra("workloop exploration did not finish:\n" + o2[-3000:])
+    ctx.notes["latch_exploration"] = st2[0]
+    semantic = 0
+    for v in res2:
+        if v.get("kind") == "viol":
+            if v["key"] == "infra":
+                raise core.Infra("workloop exploration: " + v["what"])
+            semantic += 1
+            ctx.violation("latch " + v["key"], v["what"], {"config": cfgf, "schedule": v.get("schedule")})
+    shape = []
     for v in res:
         if v.get("kind") == "viol":
             if v["key"] == "infra":
                 raise core.Infra("workloop replay: " + v["what"])
             b = behs[v["case"]]
+            if v["key"].startswith("shape "):
+                shape.append(v)
+                if semantic:  # the code left the specification's step structure AND breaks its invariants: show where they part
+                    ctx.violation("latch " + v["key"], v["what"], {"config": cfgf, "behaviour": {"init": b["init"], "steps": b["steps"][:v["step"] + 1]}})
+                continue
             ctx.violation("latch " + v["key"], v["what"], {"config": cfgf, "behaviour": {"init": b["init"], "steps": b["steps"][:v["step"] + 1]}})
+    if shape and not semantic:
+        # the latch still keeps WorkLoop.tla's invariants under every explored schedule, but its atomic steps no longer line up
+        # with the specification's labels: the specification has to be re-aligned before behaviours can be replayed. Not a verdict.
+        raise core.Infra("maybeBegin / maybeFinish no longer take the specification's atomic steps (%s); no invariant of WorkLoop.tla was broken in %d random schedules"
+                         % (shape[0]["what"], st2[0]["schedules"]))
     return len(behs), stats[0]["steps"], behs
 
 
